@@ -2158,6 +2158,10 @@ class QuicConnection:
         if event is not None:
             self._events.append(event)
         self._local_max_data.used += newly_received
+        # the bytes up to the final size are now accounted for: a repeated
+        # RESET_STREAM or late STREAM data must not be charged again
+        if final_size > stream.receiver.highest_offset:
+            stream.receiver.highest_offset = final_size
 
     def _handle_retire_connection_id_frame(
         self, context: QuicReceiveContext, frame_type: int, buf: Buffer
